@@ -91,6 +91,71 @@ theorem char_rangeFrom_prefix (a k : Nat) (ha : isScalar a = true)
     runRangeFrom charStep a k = some (charRangeFromList a k) :=
   char_rangeFrom k a ha hk
 
+/-! ## `a..` up to and past the type's maximum (build profile with debug assertions / overflow checks)
+
+Observations per step (`Tok`): an item, a panic, or the END of the iteration.  std's `RangeFrom` in this profile
+(`rangeFromChecked`, `charRangeFromChecked`) yields the values below `MAX`, panics on the step that would have to
+compute `MAX + 1`, and never ends. -/
+
+/-- **rangeFrom_checked.** For every integer type and every start `a` of the type, ANY number `k` of `next` calls on
+    `a..` observes exactly what std's `RangeFrom` does in the checked profile: `a, …, MAX-1`, then a panic — not
+    only the prefix below MAX of `rangeFrom_prefix`. -/
+theorem rangeFrom_checked (MIN MAX : Int) (a : Int) (k : Nat) (ha : a ≤ MAX) :
+    pulls (RangeFromIter.next (intStep MIN MAX)) a k = Tok.ofRun (rangeFromChecked MAX a k) :=
+  int_pulls MIN MAX k a ha
+
+/-- **char_rangeFrom_checked.** The same for `char`: the chars from `a` on below `char::MAX`, then a panic. -/
+theorem char_rangeFrom_checked (a k : Nat) (ha : isScalar a = true) :
+    pulls (RangeFromIter.next charStep) a k = Tok.ofRun (charRangeFromChecked a k) :=
+  char_pulls k a ha
+
+/-- **rangeFrom_never_ends.** For every element type (any `Step`), whatever the consumer — `k` calls of `next`,
+    `take(k)`/`zip`, `nth(n)`, `find(p)` — an iteration over `a..` never observes the end of the iteration. -/
+theorem rangeFrom_never_ends {α : Type} (S : Step α) (a : α) (k : Nat) (p : α → Bool) :
+    Tok.end_ ∉ pulls (RangeFromIter.next S) a k ∧ Tok.end_ ∉ takeLoop (RangeFromIter.next S) a k ∧
+    Tok.end_ ∉ zipLoop (RangeFromIter.next S) a k ∧
+    nthLoop (RangeFromIter.next S) a k ≠ Tok.end_ ∧ findLoop (RangeFromIter.next S) p a k ≠ Tok.end_ :=
+  ⟨pulls_no_end _ (rf_next_ne_done S) k a, takeLoop_no_end _ (rf_next_ne_done S) k a,
+   by rw [zipLoop_eq_takeLoop]; exact takeLoop_no_end _ (rf_next_ne_done S) k a,
+   nthLoop_no_end _ (rf_next_ne_done S) k a, findLoop_no_end _ p (rf_next_ne_done S) k a⟩
+
+/-- **rangeFrom_loops.** The loop of `for_each!` with a `break` after `k` items and the loop of `outer, zip(a..)`
+    observe exactly `k` calls of `next` (any source iterator). -/
+theorem rangeFrom_loops {α σ : Type} (next : σ → Outcome α σ) (s : σ) (k : Nat) :
+    forEachBreak next s k = pulls next s k ∧ zipInLoop next s k = pulls next s k :=
+  ⟨forEachBreak_eq_pulls next k s, zipInLoop_eq_pulls next k s⟩
+
+/-- **rangeFrom_take.** `a.., take(k)` (the emitted loop pulls `k + 1` items) observes what std's `(a..).take(k)`
+    does in the checked profile, for every `k` except the one where the extra pull is the step at MAX. -/
+theorem rangeFrom_take (MIN MAX : Int) (a : Int) (k : Nat) (ha : a ≤ MAX) (hk : k ≠ (MAX - a).toNat) :
+    takeLoop (RangeFromIter.next (intStep MIN MAX)) a k = Tok.ofRun (rangeFromChecked MAX a k) :=
+  int_takeLoop MIN MAX k a ha hk
+
+/-- **rangeFrom_take_at_max.** The excluded case, as the code behaves: with `k = MAX - a` the `k` values below MAX
+    reach the body and then the `(k+1)`-th pull panics, whereas std's `Take` stops after `k` items
+    (`rangeFromChecked MAX a k = (…, false)`).  The konst-vs-std observation recorded in notes/C09.md. -/
+theorem rangeFrom_take_at_max (MIN MAX : Int) (a : Int) (k : Nat) (ha : a ≤ MAX) (hk : k = (MAX - a).toNat) :
+    takeLoop (RangeFromIter.next (intStep MIN MAX)) a k = Tok.ofRun (rangeFromList a k, true) ∧
+    rangeFromChecked MAX a k = (rangeFromList a k, false) := by
+  refine ⟨int_takeLoop_at_max MIN MAX k a ha hk, ?_⟩
+  simp [rangeFromChecked, hk]
+
+/-- **rangeFrom_zip.** `a.., zip(other)` with `k` items in `other`: like std's `Zip`, `k + 1` items are pulled from
+    `a..` — same observations for every `k`, the step at MAX included. -/
+theorem rangeFrom_zip (MIN MAX : Int) (a : Int) (k : Nat) (ha : a ≤ MAX) :
+    zipLoop (RangeFromIter.next (intStep MIN MAX)) a k = Tok.ofRun (zipOfRun (rangeFromChecked MAX a) k) :=
+  int_zipLoop MIN MAX k a ha
+
+/-- **rangeFrom_nth.** `eval!(a.., nth(n))` (and `next()` = `nth(0)`): the item `a + n` if it is below MAX,
+    otherwise a panic — as std's `RangeFrom::nth`. -/
+theorem rangeFrom_nth (MIN MAX : Int) (a : Int) (n : Nat) (ha : a ≤ MAX) :
+    nthLoop (RangeFromIter.next (intStep MIN MAX)) a n = tokOfNth (nthOfRun (rangeFromChecked MAX a) n) :=
+  int_nthLoop MIN MAX n a ha
+
+/-- **charRangeFromChecked_shortcut.** the driver's evaluation of `charRangeFromChecked` -/
+theorem charRangeFromChecked_shortcut (a k : Nat) : charRangeFromCheckedFast a k = charRangeFromChecked a k :=
+  charRangeFromCheckedFast_eq a k
+
 /-! ## the loop of `for_each!` / `iter::eval!` / `collect_const!` -/
 
 /-- **range_drain.** Calling `next` until `None` (what the iteration macros do; `rev()` in a macro calls
@@ -242,6 +307,20 @@ example : runRangeFrom (intStep 0 255) 252 3 = some [252, 253, 254] := by decide
 -- outside the scope of `rangeFrom_prefix`: pulling MAX trips the `debug_assert!`
 example : runRangeFrom (intStep 0 255) 254 2 = none := by decide
 example : runRangeFrom charStep 0xD7FE 3 = some [0xD7FE, 0xD7FF, 0xE000] := by decide
+-- `a..` driven to MAX: values below MAX, then the panic; `take(k)` pulls one item more than std's `Take`
+example : pulls (RangeFromIter.next (intStep 0 255)) 253 4 = [.v 253, .v 254, .panic] := by decide
+example : rangeFromChecked 255 253 4 = ([253, 254], true) ∧ rangeFromChecked 255 253 2 = ([253, 254], false) := by decide
+example : takeLoop (RangeFromIter.next (intStep 0 255)) 253 2 = [.v 253, .v 254, .panic] := by decide
+example : takeLoop (RangeFromIter.next (intStep 0 255)) 253 1 = [.v 253] := by decide
+example : zipLoop (RangeFromIter.next (intStep 0 255)) 253 2 = [.v 253, .v 254, .panic] ∧
+    zipOfRun (rangeFromChecked 255 253) 2 = ([253, 254], true) := by decide
+example : nthLoop (RangeFromIter.next (intStep (-128) 127)) 125 1 = .v 126 ∧
+    nthLoop (RangeFromIter.next (intStep (-128) 127)) 125 2 = .panic := by decide
+example : pulls (RangeFromIter.next charStep) 0x10FFFE 3 = [.v 0x10FFFE, .panic] := by decide
+-- an iterator that does return `None` at MAX is observed as `end` by every loop (what the check looks for)
+example : pulls (fun (s : Nat) => if s < 3 then Outcome.item s (s + 1) else .done) 1 4 = [.v 1, .v 2, .end_] ∧
+    takeLoop (fun (s : Nat) => if s < 3 then Outcome.item s (s + 1) else .done) 1 4 = [.v 1, .v 2, .end_] ∧
+    nthLoop (fun (s : Nat) => if s < 3 then Outcome.item s (s + 1) else .done) 1 4 = .end_ := by decide
 
 
 /-- **forRange_eq.** `for_range!{x in a..b => ..}` binds exactly the values of `a..b` in order — for every
